@@ -363,4 +363,51 @@ def classify (name : String) (isInt isStr : Bool) : Option ColKind :=
   else some .e4
 
 
+
+/-! ## dump stream (`do_run`: `dump_entities` for the file, `dump_ostream(oss)` for the string)
+
+The dump text never passes through `PHRQ_io`. `dump_info` (`on`, the selection, `append`) survives simulations and
+calls. `Phreeqc::dump_ostream` ends with `dump_info.SetAll(false)` ("turn off dump until next read"). Per simulation:
+`save := dump_info`; with the file switch on `dump_entities` runs (needs `on` and `pr.dump`, clears `on`, writes —
+and thereby clears the selection — when the selection is not empty); with the string switch on `dump_info := save`
+and the string is written (and the selection cleared) whenever the selection is not empty — `on` and `pr.dump` are
+not consulted. -/
+
+structure DumpInfo where
+  on : Bool := false
+  any : Bool := false
+  append : Bool := false
+deriving DecidableEq, Repr
+
+structure DumpSt where
+  info : DumpInfo := {}
+  file : List Char := []
+  str : List Char := []
+deriving DecidableEq, Repr
+
+/-- `read_dump`: a DUMP block with a selection -/
+def DumpSt.readDump (s : DumpSt) (append : Bool) : DumpSt := { s with info := ⟨true, true, append⟩ }
+
+def putDump (append : Bool) (old d : List Char) : List Char := if append then old ++ d else d
+
+/-- the dump step of one simulation; `d` = the text `dump_ostream` writes for the current selection and state -/
+def dumpSim (fileOn strOn prDump : Bool) (d : List Char) (s : DumpSt) : DumpSt :=
+  let fires := fileOn && s.info.on && prDump
+  let file := if fires && s.info.any then putDump s.info.append s.file d else s.file
+  if strOn then
+    { info := { s.info with any := false }, file := file,
+      str := if s.info.any then putDump s.info.append s.str d else s.str }
+  else
+    { info := if fires then { s.info with on := false, any := false } else s.info, file := file, str := s.str }
+
+/-- a simulation: an optional DUMP block (with its -append flag) is read, then the dump step runs -/
+def dumpStep (fileOn strOn prDump : Bool) (s : DumpSt) (sim : Option Bool × List Char) : DumpSt :=
+  let s1 := match sim.1 with
+    | some app => s.readDump app
+    | none => s
+  dumpSim fileOn strOn prDump sim.2 s1
+
+/-- `GetDumpStringLine`: the line vector is refilled whenever the string is written -/
+def dumpLines (s : DumpSt) : List (List Char) := splitLines s.str
+
 end PhreeqcVerif.Route
